@@ -90,7 +90,7 @@ PROPS["C05"] = {
         "unit wasm_state (Verus, UNBOUNDED in the number of state words): state_push_host / state_pop_host / state_mem_host / state_delay_host of wasm.rs cut with rule X1 (as per-cut rewrites); f64::from_bits / to_bits uninterpreted; the expression `time.clamp(0.0, (len-1) as f64) as u64` is replaced by the helper vx_delay_samples whose range fact `<= len-1` is ASSUMED in Verus and DISCHARGED full-domain by the Kani harness delay_samples_in_range; std specifications added for i64::unsigned_abs and Result::unwrap_or",
         "Kani harness crate: real ringbuffer.rs compiled unchanged (#[path]); StateStorage of vm.rs and StateStorage + state_*_host of wasm.rs cut verbatim (rule X1 for the host functions)",
         "Vec::resize is stubbed by a panicking function in the WASM harnesses: lazy growth is proved unreachable inside a layout-sized storage",
-        "the VM instruction arms GetState / SetState / PushStatePos / PopStatePos / Delay / Mem are cut verbatim out of Machine::execute (rule X4: match arm re-headed as a method) together with get_stack / get_stack_range / set_stack / set_stack_range / set_vec_range / to_value, over a REDUCED Machine (fields stack, base_pointer, global_states, delaysizes_pos_stack, one FuncProto with delay_sizes; get_current_state reduced to the global storage, get_fnproto to that one prototype). WHICH delay_sizes entry the Delay arm selects is not decided by any harness -- known finding F5 (the index is never advanced)",
+        "the VM instruction arms GetState / SetState / PushStatePos / PopStatePos / Delay / Mem are cut verbatim out of Machine::execute (rule X4: match arm re-headed as a method) together with get_stack / get_stack_range / set_stack / set_stack_range / set_vec_range / to_value, over a REDUCED Machine (fields stack, base_pointer, global_states, delaysizes_pos_stack, one FuncProto with delay_sizes; get_current_state reduced to the global storage, get_fnproto to that one prototype). the Delay arm takes the length from the table entry the instruction names (finding F5, repaired; harness with a two-entry table and a symbolic index)",
     ],
     "assumptions": [
         "Kani units: the number of state words is bounded as stated per harness; everything else is full-domain symbolic",
